@@ -28,7 +28,8 @@ fn ref_seeded(seed: &[u8]) -> ((BigUint, BigUint), (BigUint, BigUint, BigUint, B
 }
 
 fn ffi_call(f: impl FnOnce(*mut Buffer) -> bool) -> Option<Vec<u8>> {
-    let mut out = Buffer { ptr: std::ptr::null(), len: 0 };
+    static STALE: [u8; 5] = *b"STALE";
+    let mut out = Buffer { ptr: STALE.as_ptr(), len: STALE.len() };
     if !f(&mut out as *mut Buffer) {
         return None;
     }
